@@ -118,6 +118,27 @@ func (fr *Frame) applyCallAnn(a *CallAnn, recv *Val, args []Val, ret *Val, pre, 
 		vars[k] = v
 	}
 	fr.bindLocals(vars, st, nil)
+	// inside a range loop over a slice: idx = index of the element being processed (= completed iterations)
+	if fr.curBlock != nil {
+		var best *ssa.Phi
+		for _, b := range fr.fn.Blocks {
+			if !(b == fr.curBlock || b.Dominates(fr.curBlock)) {
+				continue
+			}
+			for _, ins := range b.Instrs {
+				if phi, ok := ins.(*ssa.Phi); ok && phi.Comment == "rangeindex" {
+					if _, have := fr.vals[phi]; have && (best == nil || best.Block().Dominates(b)) {
+						best = phi
+					}
+				}
+			}
+		}
+		if best != nil {
+			if _, dup := vars["idx"]; !dup {
+				vars["idx"] = Val{T: types.Typ[types.Int], L: []string{app("bvadd", fr.vals[best].L[0], bvU(1, 64))}}
+			}
+		}
+	}
 	if recv != nil {
 		vars["recv"] = *recv
 	}
